@@ -412,7 +412,10 @@ class _DefaultTimes(Underlying):
         self, times, path: np.array, jump_path: np.array, payoff_underlying=None
     ) -> np.array:
         log_jump_path = np.log(jump_path)
-        return self._value_log(times, path, log_jump_path, payoff_underlying)
+        # not self._value_log: subclasses override it with a function of these default times
+        return _DefaultTimes._value_log(
+            self, times, path, log_jump_path, payoff_underlying
+        )
 
     def _value_log(
         self, times, path: np.array, jump_path: np.array, payoff_underlying=None
